@@ -139,8 +139,9 @@ CLAIMED = {
              "read-only flag the fork passes for STATICCALL/DELEGATECALL/CALLCODE; FunToken/Wasm query handlers refuse value; gas handed "
              "back never exceeds gas supplied. The guard tables (isMutation literal, per-case handler and first guard, out-of-gas defers, "
              "length check, denom validation before panicking constructors) are regenerated from the source on every run and consumed "
-             "by the theorems. Counterexample theorems for the four in-repo panics (repaired by fix: commits 257b492, 64c321d, ceb8798, "
-             "84bc100) and for the nested-static gap of the fork (known finding C08-nested-static). Correspondence at two levels: "
+             "by the theorems. Counterexample theorems for the five in-repo panics (repaired by fix: commits 257b492, 64c321d, ceb8798, "
+             "84bc100, 35bc8cd — the last one, getErc20Address on a tokenfactory-shaped denom with a null character, had been a gap of "
+             "the model: the lookup was listed as unvalidated but had no panic site) and for the nested-static gap of the fork (known finding C08-nested-static). Correspondence at two levels: "
              "RunPrecompiledContract with controlled len/cap (model vs implementation, stage by stage) and signed txs through proxy "
              "contracts with every call kind (oracle: panics, catchability, store digests, gas).",
         note="PARTIAL: geth's ABI decoder and the business logic behind the guards (bank, wasm, ERC20 calls) are parameters of the model; "
